@@ -50,6 +50,9 @@ type stubDSMR struct {
 	built    [][]*chain.Transaction
 	next     dsmr.ExecutedBlock[*chain.Transaction]
 	failNext bool // injected fault: the inner chunk build fails (rate limit, signing, storage error)
+	// injected fault: the inner accept fails once (a chunk cannot be fetched or stored); the engine
+	// delivers the same block again
+	failAccept bool
 }
 
 var errInnerBuild = errors.New("injected inner chunk build failure")
@@ -64,8 +67,14 @@ func (s *stubDSMR) BuildChunk(_ context.Context, txs []*chain.Transaction, _ int
 }
 
 func (s *stubDSMR) Accept(context.Context, dsmr.Block) (dsmr.ExecutedBlock[*chain.Transaction], error) {
+	if s.failAccept {
+		s.failAccept = false
+		return dsmr.ExecutedBlock[*chain.Transaction]{}, errInnerAccept
+	}
 	return s.next, nil
 }
+
+var errInnerAccept = errors.New("injected inner accept failure")
 
 type c38Op struct {
 	Kind  string `json:"op"` // build | accept
@@ -251,6 +260,18 @@ func c38(r *simk.Run) *simk.Violation {
 					return &simk.Violation{Class: "harness", Detail: err.Error()}
 				}
 				inner.next.Chunks = []dsmr.Chunk[*chain.Transaction]{wc}
+			}
+			if c.Bool(0.15) {
+				// the accept fails inside the inner node and is retried: nothing may be settled twice or lost
+				inner.failAccept = true
+				if _, err := node.Accept(ctx, dsmr.Block{BlockHeader: dsmr.BlockHeader{Timestamp: op.TS}}); !errors.Is(err, errInnerAccept) {
+					return &simk.Violation{Class: "C38/accept-error", Detail: fmt.Sprintf("Accept with a failing inner accept returned %v; history=%s", err, jsh(hist))}
+				}
+				r.S.FaultFired("inner-accept-error")
+				hist = append(hist, c38Op{Kind: "accept-failed-and-retried", TS: op.TS})
+				if v := check(fmt.Sprintf("after the failed accept of op %d", o)); v != nil {
+					return v
+				}
 			}
 			if _, err := node.Accept(ctx, dsmr.Block{BlockHeader: dsmr.BlockHeader{Timestamp: op.TS}}); err != nil {
 				return &simk.Violation{Class: "C38/accept-error", Detail: fmt.Sprintf("Accept failed: %v; history=%s", err, jsh(hist))}
